@@ -4,6 +4,7 @@ import base64
 import binascii
 import datetime
 import decimal
+import math
 import re
 
 from .utils import parse_into_datetime
@@ -97,6 +98,10 @@ class FloatConstant(_Constant):
             self.value = float(value)
         except Exception:
             raise ValueError("must be a float.")
+        if not math.isfinite(self.value):
+            # The pattern grammar has no spelling for the infinities and
+            # NaN; a literal beyond the double range converts to inf.
+            raise ValueError("must be a finite float.")
 
     def __str__(self):
         text = "%s" % self.value
